@@ -122,7 +122,13 @@ static char32_t draw_scalar(Rng &r, uint32_t mix) {
 static Scalars source_text(uint64_t data_seed, uint32_t src, uint32_t n, uint32_t mix) {
     Rng r; r.seed(simrt::mix(data_seed, src, 0xC17));
     Scalars s; s.reserve(n);
-    for (uint32_t i = 0; i < n; i++) s += draw_scalar(r, mix);
+    // one text in eight is homogeneous: every character 4 (3, 2) UTF-8 bytes - the extreme expansion ratios between the encodings
+    const unsigned homo = (mix != 0 && src % 8 == 5) ? 1 + (src >> 3) % 3 : 0;
+    for (uint32_t i = 0; i < n; i++) {
+        char32_t ch = draw_scalar(r, mix);
+        if (homo) ch = homo == 1 ? (char32_t)(0x10000 + r.below(0x100000)) : homo == 2 ? (char32_t)(0x800 + r.below(0xD000)) : (char32_t)(0xA0 + r.below(0x700));
+        s += ch;
+    }
     return s;
 }
 static long long int_value(uint32_t i) {
